@@ -56,6 +56,11 @@ Fixpoint dom (E : env) (d : desc) (w : pv) {struct d} : bool :=
   | DPrefixMap m => str_in (map fst m) w
   | DCompound ds | DUnion ds => existsb (fun a => dom E a w) ds
   | DRangeDyn _ _ _ => match w with PInt _ => true | _ => false end               (* an int; the bounds move: see dyn_range_in_bounds *)
+  | DDict kd vd =>                                     (* a dict whose keys / values lie in the key / value trait's domain *)
+      match w with
+      | PDict l => forallb (dom E kd) (map fst l) && forallb (dom E vd) (map snd l)
+      | _ => false
+      end
   | DProperty d' => dom E d' w                                                    (* the property's trait *)
   | DList d' mn mx =>                                  (* a list within the length bounds whose items lie in the item trait's domain *)
       match w with
@@ -131,6 +136,13 @@ Fixpoint conv_ok (E : env) (d : desc) (v w : pv) {struct d} : bool :=
   | DCompound ds | DUnion ds => existsb (fun a => conv_ok E a v w) ds
   | DProperty d' => conv_ok E d' v w
   | DRangeDyn _ _ _ => match cast_int v with Returns x => pv_eqb w x | Raises _ => false end     (* type(low)(value) *)
+  | DDict kd vd =>                          (* every stored key / value is the conversion of one of the given keys / values *)
+      match v, w with
+      | PDict li, PDict lo =>
+          forallb (fun k' => existsb (fun k => conv_ok E kd k k') (map fst li)) (map fst lo)
+          && forallb (fun x' => existsb (fun x => conv_ok E vd x x') (map snd li)) (map snd lo)
+      | _, _ => false
+      end
   | DList d' _ _ =>                                    (* a new list of the converted items *)
       match v, w with
       | PList vs, PList ws =>
@@ -169,6 +181,12 @@ Fixpoint raises_own (v : pv) (e : exn) : bool :=
   | PInt z | PIntSub z | PNpInt _ z | PIndexObj (Returns z) =>
       exn_eqb e EOverflowError && (MAXF <=? Z.abs z)                  (* overflowing numeric conversion *)
   | PTuple l | PTupleSub l | PList l => existsb (fun x => raises_own x e) l
+  | PDict l =>
+      (fix go (l : list (pv * pv)) : bool :=
+         match l with
+         | [] => false
+         | (k, x) :: r => raises_own k e || raises_own x e || go r
+         end) l
   | _ => false
   end.
 
@@ -198,13 +216,30 @@ Definition entry_ok (E : env) (s : inst) (nd : Z * (desc * pv)) : bool :=
   end.
 Definition touched (kw : list (Z * pv)) (n : Z) : bool :=
   existsb (fun p => (fst p =? n) || (shadow (fst p) =? n)) kw.
+(* a single assignment to a name-based Range: the stored int lies within the bounds the two bound attributes held when
+   it was assigned (the dictionary before the operation; a fresh one for a constructor), exclusivity at both ends *)
+Definition dyn_assign_ok (c : cls) (base after : inst) (kw : list (Z * pv)) : bool :=
+  match kw with
+  | [(n, _)] =>
+      match trait_of c n with
+      | Some (DRangeDyn lo hi mask, _) =>
+          match get after n, read c base lo, read c base hi with
+          | Some (PInt z), Some (PInt l), Some (PInt h) => int_range_spec z (Some l) (Some h) mask
+          | _, _, _ => false
+          end
+      | _ => true
+      end
+  | _ => true
+  end.
+
 Definition is_ok (o : outcome) : bool := match o with Ok => true | _ => false end.
 
 (* clauses: 1 every entry written by the operation lies in its declared domain (shadow = mapped value)
             2 attributes that were not assigned are exactly as they were
             3 a failing assignment leaves every attribute as it was
             4 a successful assignment stores the documented conversion
-            5 the exception is TraitError naming the attribute, or the one the value's own protocol raised *)
+            5 the exception is TraitError naming the attribute, or the one the value's own protocol raised
+            6 a value stored under a name-based Range lies within the bounds of that moment *)
 Definition law_step (E : env) (c : cls) (before : inst) (o : op) (ob : obs) : list Z :=
   let '(h, kw) := o in
   let after := o_after ob in
@@ -230,6 +265,10 @@ Definition law_step (E : env) (c : cls) (before : inst) (o : op) (ob : obs) : li
             | Ok => true
             | Raise ETraitError => o_names_attr ob
             | Raise e => existsb (fun p => raises_own (snd p) e) kw
+            end)
+  ++ chk 6 (match o_out ob with
+            | Ok => dyn_assign_ok c (match h with Ctor => [] | _ => before end) after kw
+            | Raise _ => true
             end).
 
 Fixpoint law_hist (E : env) (c : cls) (i : Z) (s : inst) (h : list (op * obs)) : list Z :=
